@@ -8,7 +8,9 @@
     ([EGraph::step_rules]) and [holds] the [:until] test ([check_facts]), both arbitrary. *)
 From Coq Require Import List Arith PeanoNat Bool.
 Import ListNotations.
+Require Import Verif.Egg.Model Verif.Egg.Rules.
 Require Import Verif.Base.Res Verif.Sched.Syntax Verif.gen.SchedFns Verif.Sched.Algebra Verif.Sched.Laws.
+Require Import Verif.gen.SchedRunFacts Verif.Sched.EggStep Verif.Sched.EggLaws.
 
 (** [RunReport::union] is a monoid with unit [RunReport::default]; [updated] is the disjunction,
     [can_stop] the conjunction, [iterations] the concatenation; [singleton] sets
@@ -211,3 +213,69 @@ Example c10_example_combined_after_add :
   collect_rule_ids 5 3 m [] = Ok [10; 11; 20]
   /\ collect_rule_ids 5 3 (add_rule m 1 12) [] = Ok [10; 11; 12; 20].
 Proof. vm_compute. split; reflexivity. Qed.
+
+(** ** Session 4: surface syntax, the [changed] flag, and the concrete step over the Egg model.
+
+    [desugar_run], [desugar_*] are regenerated from src/ast/parse.rs (parse_command "run" /
+    "run-schedule", parse_schedule); [table_merge_changed], [merge_callback_changed],
+    [iteration_changed], [rebuild_needed] from core-relations/src/free_join/mod.rs, egglog-bridge and
+    egglog-reports (gen/SchedRunFacts.v). *)
+
+(** the command [(run R n :until f)] IS [iterate]: at most n iterations of R, the facts tested
+    before each one, ending after the first iteration that reports no change *)
+Theorem c10_parse_run : forall (St R F I : Type) (step : St -> R -> St * RunReport I)
+    (holds : St -> F -> bool), singleton_like step ->
+  forall fuel (rs : R) n (u : option F) s,
+    exec step holds fuel s (desugar_run rs n u) = Ok (iterate step holds rs u n s RunReport_default).
+Proof. exact @parse_run. Qed.
+Print Assumptions c10_parse_run.
+
+(** what the parser builds for the schedule forms: [(saturate s..)] and [(repeat n s..)] wrap
+    their bodies in ONE sequence (so the laws above apply to them as stated) *)
+Theorem c10_parse_shapes : forall (R F : Type) (rs : R) (u : option F) n (tail : list (schedule R F)),
+  desugar_atom rs = Run (mkConfig rs (@None F))
+  /\ desugar_run_leaf rs u = Run (mkConfig rs u)
+  /\ desugar_seq tail = Sequence tail
+  /\ desugar_run_schedule tail = Sequence tail
+  /\ desugar_repeat n tail = Repeat n (Sequence tail)
+  /\ desugar_saturate tail = Saturate (Sequence tail).
+Proof. exact @parse_shapes. Qed.
+Print Assumptions c10_parse_shapes.
+
+(** which results of a table merge feed [RunReport.updated]: rows ADDED and merge callbacks that
+    CHANGED a stored value or subsume flag — never rows removed; the rebuild that follows an
+    iteration does not feed it either *)
+Theorem c10_flag_inputs :
+  (forall added removed esc, table_merge_changed added removed esc = (added || esc)%bool)
+  /\ (forall (V W : Type) (vneq : V -> V -> bool) (wneq : W -> W -> bool) rc ro sc so,
+        merge_callback_changed vneq wneq rc ro sc so = (vneq rc ro || wneq sc so)%bool)
+  /\ (forall c r, iteration_changed c r = c)
+  /\ (forall a b, rebuild_needed a b = negb (Nat.eqb a b)).
+Proof. exact flag_inputs. Qed.
+Print Assumptions c10_flag_inputs.
+
+(** the concrete step (one iteration of a ruleset of the shared rule interpreter, resolved at run
+    time by [collect_rule_ids]) satisfies the hypothesis of [c10_run_n]/[c10_until], so
+    [(run R n :until f)] over the Egg model is [iterate] of Egg iterations *)
+Theorem c10_egg_step_singleton : forall p : prog, singleton_like (egg_step p).
+Proof. exact egg_step_singleton. Qed.
+Print Assumptions c10_egg_step_singleton.
+
+Theorem c10_egg_run_n : forall (p : prog) fuel rs n u st,
+  egg_exec p fuel st (desugar_run rs n u)
+  = Ok (iterate (egg_step p) egg_holds rs u n st RunReport_default).
+Proof. exact egg_run_n. Qed.
+Print Assumptions c10_egg_run_n.
+
+(** "updated iff the database changed" FAILS from right to left in the faithful model (and on the
+    engine: replay in DESIGN 10.7 / harness counter egg_delete_only_iterations_unreported): an
+    iteration that only removes rows reports [updated = false] *)
+Theorem c10_updated_iff_changed_refuted : exists (p : prog) (st : dbst) (r : nat),
+  updated (snd (egg_step p st r)) = false
+  /\ tabs_size (fst (fst (egg_step p st r))) <> tabs_size (fst st)
+  /\ snd (fst (egg_step p st r)) = None.
+Proof.
+  exists del_prog, del_state, 0. destruct delete_not_reported as (H1 & H2 & H3 & H4).
+  split; [exact H1|]. split; [rewrite H2, H3; discriminate|exact H4].
+Qed.
+Print Assumptions c10_updated_iff_changed_refuted.
